@@ -237,6 +237,33 @@ theorem uOf_pr : ∀ s : Schema, wf s = true → dense s = true →
 
 /-! ### below a pruning List, `pr` does not change whether an element survives -/
 
+theorem wfL_of_forall : ∀ fs : List Schema, (∀ f ∈ fs, wf f = true) → wfL fs = true
+  | [], _ => rfl
+  | g :: gs, h => by
+    simp only [wfL, Bool.and_eq_true]
+    exact ⟨h g (by simp), wfL_of_forall gs (fun f hf => h f (List.mem_cons_of_mem _ hf))⟩
+
+theorem denseL_of_forall : ∀ fs : List Schema, (∀ f ∈ fs, dense f = true) → denseL fs = true
+  | [], _ => rfl
+  | g :: gs, h => by
+    simp only [denseL, Bool.and_eq_true]
+    exact ⟨h g (by simp), denseL_of_forall gs (fun f hf => h f (List.mem_cons_of_mem _ hf))⟩
+
+theorem wf_compound_of (nm : Option Str) (o : Bool) (k : Nat) (fields : List Schema)
+    (hnd : (namesOf fields).Nodup) (hsome : ∀ g ∈ fields, g.name.isSome)
+    (h : ∀ f ∈ fields, wf f = true) : wf (.compound nm o k fields) = true := by
+  simp only [wf, Bool.and_eq_true, decide_eq_true_eq]
+  refine ⟨⟨wfL_of_forall fields h, ?_⟩, hnd⟩
+  apply List.all_eq_true.mpr
+  intro x hx
+  obtain ⟨g, hg, rfl⟩ := exists_of_mem_namesOf hx
+  exact hsome g hg
+
+theorem dense_compound_of (nm : Option Str) (o : Bool) (k : Nat) (fields : List Schema)
+    (h : ∀ f ∈ fields, dense f = true) : dense (.compound nm o k fields) = true := by
+  simp only [dense]
+  exact denseL_of_forall fields h
+
 theorem emFields_prFields (env : Env) (u : Bool) : ∀ (fs : List Schema) (ms : List (Str × Elem)),
     (∀ f ∈ fs, ∀ e, OkP env f e → emitsB env u f (pr env u f e) = emitsB env u f e) →
     OkPFields env fs ms → emFields env u fs (prFields env u fs ms) = emFields env u fs ms
@@ -305,28 +332,8 @@ theorem emitsB_pr_true : ∀ s : Schema, wf s = true → dense s = true →
     cases e with
     | dict ms =>
       have hu := uOf_pr (env := env) (.compound nm o k fields)
-        (by
-          simp only [wf, Bool.and_eq_true, decide_eq_true_eq]
-          refine ⟨⟨?_, ?_⟩, hnd⟩
-          · clear hnd hsome hok
-            induction fields with
-            | nil => rfl
-            | cons g gs ihg =>
-              simp only [wfL, Bool.and_eq_true]
-              exact ⟨(ih g (by simp)).1, ihg (fun f hf => ih f (List.mem_cons_of_mem _ hf))⟩
-          · apply List.all_eq_true.mpr
-            intro x hx
-            obtain ⟨g, hg, rfl⟩ := exists_of_mem_namesOf hx
-            exact hsome g hg)
-        (by
-          simp only [dense]
-          clear hnd hsome hok
-          induction fields with
-          | nil => rfl
-          | cons g gs ihg =>
-            simp only [denseL, Bool.and_eq_true]
-            exact ⟨(ih g (by simp)).2.1, ihg (fun f hf => ih f (List.mem_cons_of_mem _ hf))⟩)
-        true (.dict ms) hok
+        (wf_compound_of nm o k fields hnd hsome (fun f hf => (ih f hf).1))
+        (dense_compound_of nm o k fields (fun f hf => (ih f hf).2.1)) true (.dict ms) hok
       simp only [OkP] at hok
       have hok' := okP_prFields env true fields ms
         (fun f hf => okP_pr f (ih f hf).1 (ih f hf).2.1) hok
